@@ -5,12 +5,13 @@
    stdin, one case per line, the language of harness qv_types / types_main.ml:
        (ops OP..) (qs Q..)     Q ::= (compat a b) | (overlap a b) | (isect a b) | (compl o n)
    stdout per case:
-       (n N) (topo 0|1) (reldepths (D B)..) (narrowdepths (D NB)..) (rs R..)
+       (n N) (topo 0|1) (closed 0|1) (reldepths (D B)..) (narrowdepths (D NB)..) (rs R..)
      N  = number of registered types after the ops;  topo = the hypothesis `topob` of the theorems
      (D B)  per compat/overlap query: D = minimal fuel for which check_rel answers (`over` when more
             than B is needed), B = rel_bound of the registry the query ran in
      (D NB) per isect/compl query: D = minimal structural fuel (cap 4*NB+64; `over` beyond),
-            NB = narrow_bound of the registry the query ran in
+            NB = narrow_bound of the registry the query ran in (proved: C18_intersect_types_terminates,
+            C18_complement_bound_suffices); closed = the hypothesis `closed_tuplesb` of those theorems
      R  = the model's answer AT THE PROVED FUEL B (compat/overlap: 0 | 1 | (fuel)); for isect/compl
           (id k) computed as types_main.ml does (fuel 100000) *)
 open Front_model
@@ -68,12 +69,12 @@ let str_depth = function Some d -> string_of_int (i d) | None -> "over"
 let run_case parts =
   let p = ref new_registry in
   let rel = ref [] and nar = ref [] and rs = ref [] in
-  let n0 = ref 0 and topo0 = ref false in
+  let n0 = ref 0 and topo0 = ref false and closed0 = ref false in
   List.iter (fun part ->
       match part with
       | Sexp.List (Sexp.Atom "ops" :: ops) ->
         List.iter (fun op -> let (p', _) = apply_op !p op in p := p') ops;
-        n0 := i (ntypes !p); topo0 := topob !p
+        n0 := i (ntypes !p); topo0 := topob !p; closed0 := closed_tuplesb !p
       | Sexp.List (Sexp.Atom "qs" :: qs) ->
         List.iter (fun q ->
             match q with
@@ -105,7 +106,7 @@ let run_case parts =
                | _ -> failwith ("bad query " ^ h))
             | _ -> failwith "bad query") qs
       | _ -> failwith "bad part") parts;
-  Printf.printf "(n %d) (topo %d) (reldepths %s) (narrowdepths %s) (rs %s)\n" !n0 (if !topo0 then 1 else 0)
+  Printf.printf "(n %d) (topo %d) (closed %d) (reldepths %s) (narrowdepths %s) (rs %s)\n" !n0 (if !topo0 then 1 else 0) (if !closed0 then 1 else 0)
     (String.concat " " (List.rev !rel)) (String.concat " " (List.rev !nar)) (String.concat " " (List.rev !rs))
 
 let () =
